@@ -335,6 +335,10 @@ func runDecode(c *Ctx) {
 	emit(decodeCase{Kind: "corpus", Doc: hx("version: '3'\nvars:\n  A: 2024-01-01\ntasks: {t: {cmds: ['echo {{.A}}']}}\n"), Note: "timestamp variable"})
 	emit(decodeCase{Kind: "corpus", Doc: hx("version: '3'\ntasks: {build: {cmds: [echo]}}\n"), Req: strings.Repeat("a", 2500), Note: "very long unknown task name (did-you-mean lookup is cubic in the length)"})
 	emit(decodeCase{Kind: "corpus", Doc: hx("version: '3'\ntasks: {build: {aliases: [b], cmds: [echo]}}\n"), Req: strings.Repeat("build", 400), Note: "very long unknown task name made of a known one"})
+	// wildcard task names asked for with a name in which the fixed prefix and suffix overlap
+	emit(decodeCase{Kind: "corpus", Doc: hx("version: '3'\ntasks:\n  'deploy-*-prod': {cmds: [echo]}\n  'a*a': {cmds: [echo]}\n"), Req: "deploy-prod", Note: "wildcard prefix/suffix overlap"})
+	emit(decodeCase{Kind: "corpus", Doc: hx("version: '3'\ntasks:\n  'deploy-*-prod': {cmds: [echo]}\n  'a*a': {cmds: [echo]}\n"), Req: "a", Note: "wildcard prefix/suffix overlap (single letter)"})
+	emit(decodeCase{Kind: "corpus", Doc: hx("version: '3'\ntasks:\n  '*-x-*': {cmds: [echo]}\n  'x*': {cmds: [echo]}\n  '*x': {cmds: [echo]}\n"), Req: "x", Note: "wildcards at both ends"})
 	// (a) shapes × positions
 	total := len(decShapes) * len(decPositions)
 	n := total // the whole product in both tiers (a few seconds): a sampled quick tier kept missing the one pair that mattered
